@@ -10,6 +10,7 @@ import itertools
 from ..core import check, Violation
 
 ID = "C08"
+IMPORTS = ['rig.bitfield']
 LEVEL = "exploration"
 TECHNIQUE = ("runtime reference-model monitor: shadow field hierarchy judged "
              "against add_field / __call__ / assign_fields / get_* results "
